@@ -61,7 +61,7 @@ def state_view(pv, names):
     s = d["min_oracle_slot"]
     out = {"min_ts": d["min_oracle_ts"].t, "max_ts": d["max_oracle_ts"].t, "slot_some": s.is_("Some")}
     pl = s.pl.get("Some")
-    out["slot"] = pl[0].t if pl else 0
+    out["slot"] = t_ite(s.is_("Some"), pl[0].t, 0) if pl else 0      # the native side prints unwrap_or(0)
     return out
 
 
@@ -176,4 +176,107 @@ def obligations(tier):
                    lambda i, o: [("Ok(Some)", And(o["some"], o["has"], i["max0"] > i["min0"])), ("Ok(None)", And(o["some"], Not(o["has"]))),
                                  ("Err: range exceeded", And(Not(o["some"]), i["max0"] > i["min0"])), ("Err: nothing validated yet", And(Not(o["some"]), i["max0"] < i["min0"]))],
                    lambda i, o: [("WRONG (twin): Ok => max_ts - min_ts < range", o["some"].implies(i["max0"] - i["min0"] < i["range"]))]))
-    return out
+
+    # ---- validate_one -------------------------------------------------------------------------------------------------
+    vo_inputs = PV_INPUTS + [("cfg_ok", "bool"), ("adj", "u32"), ("ratio", "u32"), ("ots", "i64"), ("oslot", "u64"),
+                             ("minv", "u32"), ("mind", "u8"), ("maxv", "u32"), ("maxd", "u8"), ("has_ref", "bool"), ("refv", "u32"), ("refd", "u8")]
+
+    def vo_args(v):
+        dec = lambda a, b: St("Decimal", [v[a], v[b]])
+        price = St("Price", [dec("minv", "mind"), dec("maxv", "maxd")])
+        return [RefMut(0, "$pv"), Ref(Opq("TokenConfig")), Ref(Opq("PriceProviderKind")), v["ots"], v["oslot"], Ref(price),
+                En("Option", t_ite(v["has_ref"].t, 1, 0), {"Some": (Ref(dec("refv", "refd")),)})]
+
+    def res(ok, val):
+        return En("Result", t_ite(ok.t, 0, 1), {"Ok": (val,), "Err": (Opq("TokenConfigError"),)})
+    stubs = [(r"gmsol_utils::token_config::TokenConfig::timestamp_adjustment", lambda ex, m, a, v: res(v["cfg_ok"], v["adj"])),
+             (r"gmsol_utils::token_config::TokenConfig::max_deviation_factor",
+              lambda ex, m, a, v: res(v["cfg_ok"], En("Option", t_ite(E(v["ratio"].t).eq(0).t, 0, 1),
+                                                     {"Some": (I(E(v["ratio"].t * 1).t if False else (E(v["ratio"].t) * RM).t, "u128"),)})))]
+    vo_rust = (PV_RUST +
+               "            let mut tc: gmsol_utils::token_config::TokenConfig = bytemuck::Zeroable::zeroed();\n"
+               "            let kind = gmsol_utils::oracle::PriceProviderKind::Pyth;\n"
+               "            if cfg_ok {\n"
+               "                let fc = gmsol_utils::token_config::FeedConfig::new(anchor_lang::prelude::Pubkey::new_from_array([7u8; 32])).with_timestamp_adjustment(adj)\n"
+               "                    .with_max_deviation_factor(if ratio == 0 { None } else { Some(ratio as u128 * 1_000_000_000_000u128) }).expect(\"factor\");\n"
+               "                tc.set_feed_config(&kind, fc).expect(\"set feed\");\n"
+               "            }\n"
+               f"            let price = gmsol_utils::Price {{ min: {DEC} {{ value: minv, decimal_multiplier: mind }}, max: {DEC} {{ value: maxv, decimal_multiplier: maxd }} }};\n"
+               f"            let rp = {DEC} {{ value: refv, decimal_multiplier: refd }};\n"
+               "            let r = pv.verif_validate_one(&tc, &kind, ots, oslot, &price, if has_ref { Some(&rp) } else { None });\n"
+               "            println!(\"some={}\", r.is_ok() as u8);\n            " + PV_PRINT)
+
+    def tap_dev(args, result):
+        r = args[0]
+        while hasattr(r, "v"):
+            r = r.v
+        return {"R": r.t, "D": result.pl["Some"][0].t, "D_some": result.is_("Some")}
+
+    def tap_round(args, result):
+        pl = result.pl.get("Some")
+        return {"c": pl[0].fs[0].t, "c_some": result.is_("Some")}
+
+    def derive(inp):
+        umin, umax = inp["minv"] * 10 ** inp["mind"], inp["maxv"] * 10 ** inp["maxd"]
+        R = inp["refv"] * 10 ** inp["refd"] if inp["has_ref"] else (umin + umax) // 2
+        D = R * inp["ratio"] * RM // UNIT
+        m = 10 ** inp["maxd"]
+        c = -((-D) // m)
+        return {"R": R, "D": D, "D_some": D <= UMAX, "c": c, "c_some": c <= U32MAX}
+
+    L_DEV = "Ok, deviation configured => |p.max - R| <= D and |p.min - R| <= D (the configured deviation itself)"
+
+    def vo_spec(i, o):
+        mmin, mmax = Pow10(i["mind"]), Pow10(i["maxd"])
+        umin, umax = i["minv"] * mmin, i["maxv"] * mmax
+        R, D, c = o["R"], o["D"], o["c"]
+        f = i["ratio"] * RM
+        ts = i["ots"] - i["adj"]
+        exp = ts + i["max_age"]
+        fut = Ite(i["now"] + i["excess"] > I64MAX, I64MAX, i["now"] + i["excess"])
+        time_ok = And(ts >= I64MIN, exp <= I64MAX, exp >= i["now"], fut >= i["ots"])
+        has_dev = i["ratio"].ne(0)
+        dmax, dmin = Abs(umax - R), Abs(umin - R)
+        Dr = c * mmax
+        dev_ok = Or(Not(has_dev), And(o["D_some"], Or(D.eq(0), And(o["c_some"], Dr >= dmax, Dr >= dmin))))
+        return [("LEMMA: R is the explicit reference's unit price, else floor((umin + umax) / 2) (when a deviation is configured)",
+                 And(i["cfg_ok"], time_ok, has_dev).implies(Ite(i["has_ref"], R.eq(i["refv"] * Pow10(i["refd"])), And(2 * R <= umin + umax, umin + umax <= 2 * R + 1)))),
+                ("LEMMA: D == floor(R * ratio * 10^12 / 10^20) (Err iff it exceeds u128)",
+                 And(i["cfg_ok"], time_ok, has_dev).implies(And(D * UNIT <= R * f, R * f < (D + 1) * UNIT, D >= 0, o["D_some"].iff(D <= UMAX)))),
+                ("LEMMA: the deviation is rounded up to the grid of p.max: c == ceil(D / 10^m_max) (Err iff c exceeds u32)",
+                 And(i["cfg_ok"], time_ok, has_dev, o["D_some"], D > 0).implies(And((c - 1) * mmax < D, D <= c * mmax, o["c_some"].iff(c <= U32MAX)))),
+                ("Ok <=> accessors Ok, oracle_ts - adj + max_age >= now (no i64 overflow), min(now + excess, i64::MAX) >= oracle_ts, and the deviation check "
+                 "(none configured, or D == 0 [skipped], or both |p - R| <= c*10^m_max)", o["some"].iff(And(i["cfg_ok"], time_ok, dev_ok))),
+                ("Ok => the price is not older than max_age after the adjustment and not further than the excess in the future (exact integers)",
+                 o["some"].implies(And(i["ots"] - i["adj"] + i["max_age"] >= i["now"], i["now"] + i["excess"] >= i["ots"]))),
+                (L_DEV, And(o["some"], has_dev).implies(And(dmax <= D, dmin <= D))),
+                ("Ok, deviation configured, D > 0 => both sides within D rounded up to the grid of p.max, i.e. less than one grid step above D",
+                 And(o["some"], has_dev, D > 0).implies(And(dmax < D + mmax, dmin < D + mmax))),
+                ("Ok => range state merged with (oracle_slot, ts, ts), ts = oracle_ts - adj", o["some"].implies(state_is(o, merged(i, E(True), i["oslot"], ts, ts)))),
+                ("Err => range state unchanged", Not(o["some"]).implies(unchanged(i, o)))]
+
+    def k_dev(i, o):
+        """finding region: the deviation is zero (check skipped) or not a multiple of the grid step of p.max (rounded up)"""
+        return Or(o["D"].eq(0), (o["c"] * Pow10(i["maxd"])).ne(o["D"]))
+    extra = ((3, 10), (12, 4))
+    vos = []
+    for mind in range(MAXM + 1):
+        for maxd in range(MAXM + 1):
+            if tier == "quick" and mind != maxd and (mind, maxd) not in extra:
+                continue
+            witness = (mind, maxd) in ((8, 8), (0, 0), (20, 20)) + extra
+            cov = (lambda i, o: [("Ok reachable", o["some"]), ("Err reachable", Not(o["some"]))])
+            covw = (lambda i, o: [("Ok with deviation check", And(o["some"], i["ratio"] > 0, o["D"] > 0)), ("Ok without reference, widening the range", And(o["some"], Not(i["has_ref"]), o["min_ts"] < i["min0"])),
+                                  ("Err: too old", And(Not(o["some"]), i["cfg_ok"], i["ots"] < i["now"], i["ratio"].eq(0))),
+                                  ("Err: deviation exceeded", And(Not(o["some"]), i["cfg_ok"], i["ratio"] > 0, o["D"] > 0, i["ots"].eq(i["now"]), i["adj"].eq(0))),
+                                  ("Err: accessor failed", Not(i["cfg_ok"]))])
+            vos.append(Obl(f"PriceValidator::validate_one [m_min={mind}, m_max={maxd}]", locate("PriceValidator::validate_one"), vo_inputs, vo_args, None, vo_rust,
+                           vo_spec, covw if witness else cov,
+                           (lambda i, o: [("WRONG (twin): Ok => oracle_ts - adj + max_age > now (strict)", o["some"].implies(i["ots"] - i["adj"] + i["max_age"] > i["now"]))]) if witness else None,
+                           assume=lambda i: And(i["refd"] <= MAXM), fixed={"mind": mind, "maxd": maxd}, key="validate_one",
+                           stubs=stubs, init_locals=pv_init,
+                           view_state=lambda ret, fin: dict(state_view(fin["$pv"], holder["names"]), some=ret.is_("Ok")),
+                           taps={"dev": (r"apply_factor::<u128, 20>", tap_dev), "round": (r"gmsol_utils::price::Decimal::with_unit_price", tap_round)},
+                           derive=derive, findings={L_DEV: ("c24_deviation_rounded_up_to_grid_or_skipped_at_zero", k_dev)}))
+    vos.sort(key=lambda o_: (o_.fixed != {"mind": 8, "maxd": 8}))
+    return out + vos
